@@ -38,7 +38,19 @@ def handle (j : Json) : R Json := do
     | some ss =>
       let base := [("v", jnat srv.v), ("k", jnat srv.k), ("B", jnat srv.B), ("Bb", jhex srv.Bb),
         ("u", jnat ss.u), ("S", jnat ss.S), ("K", jnat ss.K), ("Kb", jhex ss.Kb),
-        ("M", jhex ss.M), ("HAMK", jhex ss.HAMK)]
+        ("M", jhex ss.M), ("HAMK", jhex ss.HAMK),
+        -- the remaining functions of hsrp.Server, each called on its own (names as in pyhap/hsrp.py)
+        ("_get_private_key", jnat (privKey H salt I code)),
+        ("_get_verifier", jnat (getVerifier H G salt I code)),
+        ("_get_k", jnat (multK H G)),
+        ("_derive_B", jnat (deriveB G srv.k srv.v srv.b)),
+        ("get_challenge", Json.arr #[jhex srv1.getChallenge.1, jnat srv1.getChallenge.2]),
+        ("_padN_A", jhex (padN G A)), ("_padN_B", jhex (padN G srv.Bb)),
+        ("_get_K", jnat (getK H ss.Sb)),
+        ("_get_M", jhex (proofM H G srv.I srv.s ss.Ab srv.Bb ss.Kb)),
+        ("_get_HAMK", jhex (getHAMK H ss.Ab ss.M ss.Kb)),
+        ("get_session_key", jopt jnat srv1.sessionKey),
+        ("get_session_key_bytes", jopt jhex srv1.sessionKeyBytes)]
       match j.getObjVal? "M" with
       | .ok (.str m) =>
         let m ← hexOf m
